@@ -59,6 +59,15 @@ def rounding(F, rep, bodies=None):
             if not pres:
                 continue
             n += 1
+            # a figure is rounded ONCE: rounding an already rounded value (4 dp, then 2 dp) moves 20.12495 to 20.1250 and then to 20.13,
+            # while every output that rounds once shows 20.12 (seeded change C17-s10)
+            recv = Terms(F, b, inline_depth=1).operand(t["args"][0]) if t["args"] else None
+            inner = [x for x in subterms(recv) if isinstance(x, tuple) and x and x[0] == "call" and x[1].startswith("rust_decimal::decimal::Decimal::")
+                     and x[1].rsplit("::", 1)[-1] in ("round_dp", "round", "round_dp_with_strategy", "round_sf", "round_sf_with_strategy", "trunc", "trunc_with_scale")] if recv else []
+            if inner:
+                rep.ob("R1", f"{b.short}:{m}:rounded-twice", False, f"`{b.short}` rounds a value that was already rounded by {inner[0][1].rsplit('::', 1)[-1]}: double "
+                       "rounding differs from rounding once on values just below a midpoint, so this output disagrees with the others by a penny",
+                       b.loc(t["sp"]), key=f"R1:{b.short}:rounded-twice")
             if m == "round_dp_with_strategy":
                 k = _const_through(b, t["args"][2]) if len(t["args"]) > 2 else None
                 disp = (k or {}).get("disp", "")
@@ -427,6 +436,7 @@ def controls(pctx, rep):
     ks = {v["key"] for v in r.violations}
     rep.control("R1:bare-round_dp", any("round_bare" in k for k in ks), "posctl::round_bare")
     rep.control("R1:away-ok", not any("round_away_ok" in k for k in ks), "posctl::round_away_ok must stay silent")
+    rep.control("R1:rounded-twice", any("round_twice" in k and "rounded-twice" in k for k in ks), "posctl::round_twice")
     rep.control("R1:wrong-strategy", any("round_half_even_strategy" in k for k in ks), "posctl::round_half_even_strategy")
     cb = {b.short for b, site, ty in clipped_text(F, None, crates=("posctl",))}
     rep.control("R4:text-clipped", cb == {"fmt_text_clipped"}, f"posctl: text formatted with a precision in {sorted(cb)} (expected ['fmt_text_clipped'])")
